@@ -18,6 +18,6 @@ int main() {
     pub.publish(3);
     bool a = awt.await_resume();
     bool b = copy.next_ready();
-    printf("original: %d value=%d | copy: %d value=%d (expected 2)\n", a, orig.value(), b, b ? copy.value() : -1);
+    printf("original: %d value=%d | copy: %d value=%d (expected 2)\n", a, a ? orig.value() : -1, b, b ? copy.value() : -1);
     return !(b && copy.value() == 2);
 }
